@@ -201,6 +201,7 @@ def run(repo, rep, tier):
     index_formula_rule(repo, rep)
     batch_average_rule(repo, rep, prims)
     count_sees_length_rule(repo, rep)
+    saturation_rule(repo, rep)
     from .c02 import datum_forwarding_rule
     datum_forwarding_rule(repo, rep, prims, "_numpy")
     coverage_guard(repo, prims, rep=rep)
@@ -701,3 +702,38 @@ def count_sees_length_rule(repo, rep):
                             f"{cname}(Count(), Sum(q)).fill.numpy(data) leaves the Count at 1.0 whatever the length of the batch, while the same "
                             f"tree with the children in the other order is right", stmt=f"{cname}: Count filled before the batch length is known")
             break
+
+
+# ---------------------------------------------------------------------------------------------- R3.12 saturation of the sparse index
+def saturation_rule(repo, rep):
+    """SparselyBin.bin saturates the real-valued index at the ends of the int64 range (`softbin <= LONG_MINUSINF`, `softbin >=
+    LONG_PLUSINF`) BEFORE it is converted to an integer.  The vectorised path must test the same range on the float index before
+    its cast to int64: patching only the rows that are infinite leaves a finite datum whose index exceeds the range to the cast,
+    which turns it into the NaN index - the row is counted in entries but lands in no bin."""
+    r12 = rep.rule("R3.12", "every range test on the real-valued sparse index in bin() has a counterpart on the float index in _numpy (before the integer cast)", floor=2)
+    c = repo.cls("SparselyBin")
+    sc, ve = repo.lookup(c, "bin"), repo.own_method(c, "_numpy")
+    if not isinstance(sc, FuncInfo):
+        raise AnalysisError("SparselyBin.bin not found")
+    consts = {k for k, v in sc.module.assigns.items() if k.isupper()} | {k for k in sc.module.imports if k.isupper()}
+
+    def range_tests(f):
+        out = set()
+        for n in walk_local_stmt(f.node):
+            if isinstance(n, ast.Compare) and len(n.ops) == 1 and isinstance(n.ops[0], (ast.Lt, ast.LtE, ast.Gt, ast.GtE)):
+                l, r = n.left, n.comparators[0]
+                if isinstance(r, ast.Name) and r.id in consts and not (isinstance(l, ast.Name) and l.id in consts):
+                    out.add((r.id, "low" if isinstance(n.ops[0], (ast.Lt, ast.LtE)) else "high", n))
+                elif isinstance(l, ast.Name) and l.id in consts and not (isinstance(r, ast.Name) and r.id in consts):
+                    out.add((l.id, "high" if isinstance(n.ops[0], (ast.Lt, ast.LtE)) else "low", n))
+        return out
+    s_tests = range_tests(sc)
+    v_tests = {(k, side) for k, side, _ in range_tests(ve)}
+    for k, side, node in sorted(s_tests, key=lambda t: t[2].lineno):
+        ok = (k, side) in v_tests
+        r12.ob(ok, f"SparselyBin.bin: `{ast.unparse(node)}` has a vectorised counterpart")
+        if not ok:
+            rep.finding("R3.12", ve, ve.node, f"SparselyBin.bin saturates with `{ast.unparse(node)}` but SparselyBin._numpy has no test of the float index "
+                        f"against {k}: it only patches infinite rows, so a finite datum whose index exceeds the int64 range (e.g. 1e300 with "
+                        f"binWidth 0.5) is cast to the NaN index and skipped - counted in entries, present in no bin - while the per-row fill puts "
+                        f"it into the saturated bin {k}", stmt=f"no vectorised range test against {k}")
